@@ -20,13 +20,38 @@ def obedient_child(running, log_path=None):
 # C29: device classes that a spawned child can re-import by name
 # ---------------------------------------------------------------------------
 C29_FORMATS = ["B", "H", "I", "Q", "b", "h", "i", "q", "x", "x", "IH", "QB",
-               "HB", "3H"]
+               "HB", "3H", "l", "L", "HI", "Bq", "hq", "bI"]
+C29_PLAIN = 8      # classes 0..7 derive from Device
+C29_DERIVED = 4    # classes 8..11 derive from class k-8 and re-declare
+
+
+def _c29_decl(k):
+    """the DeviceVars class k declares itself: {name: format}"""
+    import random
+    rng = random.Random(1000 + k)
+    if k < C29_PLAIN:
+        return {f"v{j}": rng.choice(C29_FORMATS)
+                for j in range(rng.randint(1, 6))}
+    base = _c29_decl(k - C29_PLAIN)
+    out = {}
+    # re-declare one or two inherited variables with another (mostly wider)
+    # format, and add a variable of its own
+    for n in rng.sample(sorted(base), min(len(base), rng.randint(1, 2))):
+        out[n] = rng.choice(["Q", "q", "QB", "x", "I", "Bq"])
+    out["w0"] = rng.choice(C29_FORMATS)
+    return out
+
+
+def _c29_effective(k):
+    """{name: format} as seen on an instance of class k"""
+    if k < C29_PLAIN:
+        return _c29_decl(k)
+    return dict(_c29_decl(k - C29_PLAIN), **_c29_decl(k))
 
 
 def _c29_formats(k):
-    import random
-    rng = random.Random(1000 + k)
-    return [rng.choice(C29_FORMATS) for _ in range(rng.randint(1, 6))]
+    eff = _c29_effective(k)
+    return [eff[n] for n in sorted(eff)]
 
 
 def _make_c29_classes():
@@ -34,12 +59,13 @@ def _make_c29_classes():
     sys.path.insert(0, __import__("os").environ.get("EBPFCAT_REPO", "/repo"))
     from ebpfcat.ebpfcat import Device, DeviceVar
     out = []
-    for k in range(6):
-        ns = {f"v{j}": DeviceVar(f, write=True)
-              for j, f in enumerate(_c29_formats(k))}
+    for k in range(C29_PLAIN + C29_DERIVED):
+        ns = {n: DeviceVar(f, write=True) for n, f in _c29_decl(k).items()}
         ns["__module__"] = __name__
         ns["__qualname__"] = f"C29Dev{k}"
-        cls = type(f"C29Dev{k}", (Device,), ns)
+        base = Device if k < C29_PLAIN else out[k - C29_PLAIN]
+        cls = type(f"C29Dev{k}", (base,), ns)
+        cls.c29_vars = _c29_effective(k)
         out.append(cls)
         globals()[f"C29Dev{k}"] = cls
     return out
@@ -144,14 +170,12 @@ def c29_child(sg, conn):
                 vals = []
                 for d in sg.devices:
                     cls = type(d)
-                    vals.append([getattr(d, n) for n in sorted(
-                        k for k in cls.__dict__ if k.startswith("v"))])
+                    vals.append([getattr(d, n) for n in sorted(cls.c29_vars)])
                 conn.send(("values", vals))
             elif msg[0] == "write":
                 for d, row in zip(sg.devices, msg[1]):
                     cls = type(d)
-                    names = sorted(k for k in cls.__dict__
-                                   if k.startswith("v"))
+                    names = sorted(cls.c29_vars)
                     for n, v in zip(names, row):
                         setattr(d, n, v)
                 conn.send(("done",))
